@@ -575,6 +575,52 @@ def queue_reads(fn, field):
     return out
 
 
+QUEUE_TAKERS = re.compile(r'^crossbeam_channel::channel::Receiver::(try_recv|recv|recv_timeout|recv_deadline|try_iter|iter)$|'
+                          r'^<&?crossbeam_channel::channel::Receiver<.*> as core::iter::traits::collect::IntoIterator>::into_iter$|'
+                          r'^crossbeam_channel::select')
+ITER_STEPS = {'next', 'into_iter', 'by_ref', 'peekable', 'fuse'}
+
+
+def check_ready_ids_are_run(rep, rid, core):
+    """every place that takes task ids off a ready queue (a Receiver<TaskId>) hands what it took to run_task: a wake-up is consumed only by
+    polling the task it names.  Sites are found by the receiver's item type, wherever they are."""
+    n = 0
+    for f in core.built:
+        if f.j.get('exp') or '::tests' in f.npath or f.j.get('test'):
+            continue
+        for bb, t in f.calls():
+            cn = norm(t.get('callee') or '')
+            if not QUEUE_TAKERS.match(cn) or not t.get('args'):
+                continue
+            a0 = t['args'][0]
+            ty = str(f.locals[a0['l']]) if 'l' in a0 else ''
+            if not re.search(r'Receiver<[\w:]*TaskId>', ty) and 'ready_queue' not in field_of_receiver(f, a0):
+                continue
+            n += 1
+            seen, work, runs, others = set(), [t['d']['l']], False, []
+            while work:
+                l = work.pop()
+                if l in seen:
+                    continue
+                seen.add(l)
+                for s_ in flows_to(f, l):
+                    if s_[0] != 'callarg':
+                        continue
+                    c2 = last_seg(s_[2].get('callee') or '')
+                    if c2 == 'run_task':
+                        runs = True
+                    elif c2 in ITER_STEPS and 'l' in (s_[2].get('d') or {}):
+                        work.append(s_[2]['d']['l'])
+                    else:
+                        others.append(c2)
+            key = '%s|%s|taken-ids-are-run' % (f.kpath, last_seg(cn))
+            rep.expect(rid, runs, key, 'the ids taken by %s reach run_task' % last_seg(cn),
+                       '%s takes task ids off the ready queue that never reach run_task (they go to %s): a wake-up of another task can be '
+                       'swallowed, and that task is never polled for the value it was resolved with' % (f.where(bb), sorted(set(others)) or 'nothing'))
+    if n < 2:
+        rep.bad(rid, 'ready-queue-readers', 'expected the two readers of a ready queue (Command::run_until_settled, QueuingExecutor::run_all), found %d' % n)
+
+
 def check_executor_loops(rep, core, rid='R01.e'):
     f = single(rep, rid, core, 'crux_core::capability::executor::QueuingExecutor::run_all')
     if f is not None:
